@@ -413,6 +413,10 @@ fn server_level(cfg: &RunCfg) -> Outcome {
         Ok(e) => e,
         Err(e) => return Outcome { harness_error: Some(e), ..Default::default() },
     };
+    // (virtual time may pass at any step: a timer a change introduces can fire while a
+    // client is not reading)
+    let mut eng = eng;
+    eng.weights.early_timer_64 = gen::pick(&[0u32, 0, 4]);
     // fault choice
     let kind = gen::weighted(&[if file_body { 4 } else { 0 }, 3, 3, 2, 1]);
     let body_fault = if kind == 0 { gen_body_fault(len) } else { BodyFault::None };
